@@ -845,8 +845,11 @@ def _approx_cmp(w, oracle, rtol):
         s = Snap(real_t)
         shadow = expected.copy()
         if s.m.shape == shadow.m.shape:
-            close = np.isclose(s.m, shadow.m, rtol=rtol, atol=0.0)
-            zero_ok = (shadow.m == 0) == (s.m == 0)
+            # (a few units in the last place of a subnormal result are a large
+            # relative error: the absolute floor covers them)
+            close = np.isclose(s.m, shadow.m, rtol=rtol, atol=1e-322)
+            zero_ok = ((shadow.m == 0) == (s.m == 0)) | (
+                (np.abs(shadow.m) <= 1e-322) & (np.abs(s.m) <= 1e-322))
             if close.all() and zero_ok.all():
                 shadow.m = s.m.copy()
         d = diff_ref(s, shadow)
